@@ -17,7 +17,7 @@ LEVEL = "exploration"
 FLAVOUR = "plain"
 TIERS = {"quick": (40000, 150), "thorough": (1500000, 3000)}
 RULE_TEXT = ("one run = 1-4 producer tasks x up to 8 uniquely named events each, one stepper (step(0) / step(ms) / step(forever)), "
-             "a generated chain chart (k raises per external event, eventless follow-ups, in 35% a targetless first stage that only raises, in 60% a watching region with guarded eventless transitions) under one seeded schedule; non-trivial = "
+             "a generated chain chart (k raises per external event, eventless follow-ups, in 25% a targetless first stage that only raises, in 15% of the lua charts a first stage whose guard cannot be evaluated (the error event starts the chain), in 60% a watching region with guarded eventless transitions) under one seeded schedule; non-trivial = "
              "the receive() of one task overlapped (by global sequence number) a receive() or a dequeue of another task; "
              "distinct = distinct scheduler decision-sequence hashes among non-trivial runs")
 ASSUMPTIONS = [
@@ -42,7 +42,13 @@ def gen_plan(seed, k):
     neps = rp.randint(0, 2)
     chain = ["e%d" % i for i in range(neps)] + ["y%d" % i for i in range(nraise)]
     first = chain[0] if chain else "w"
-    if rp.random() < 0.35:
+    x0 = rp.random()
+    if dm == "lua" and x0 < 0.15:
+        # the external event enables nothing, but evaluating its guard fails: the error event goes to the internal queue
+        # and must be processed before the next external event, although no transition was taken at all
+        w.add(El("transition", {"event": "p", "cond": "nosuchfn()", "target": "w"}))
+        t = w.add(El("transition", {"event": "error.execution", "target": first}))
+    elif x0 < 0.4:
         # the external event is taken by a targetless transition that only raises: the macrostep goes on although the
         # configuration did not change
         t0 = w.add(El("transition", {"event": "p"}))
